@@ -606,7 +606,7 @@ func genSeqText(r *rand.Rand, prefix string, keys []string, i, nargs int) string
 		}
 		t += " " + w
 	}
-	return t
+	return ctcpWrap(r, t, 10)
 }
 
 // ---- generators ----
@@ -614,10 +614,10 @@ func genSeqText(r *rand.Rand, prefix string, keys []string, i, nargs int) string
 var (
 	name20      = "abcdefghij0123456789"
 	name21      = "abcdefghij0123456789x"
-	cmdPrefixes = []string{"!", ".", "$^", "\\", "(a|b)", "[x]", "*+?", "\xc3\xa9", "", replacementRune, "a" + replacementRune, "!!", "{b}", "^", "$", "\\Q", "x", " ", "\n", "|", "-", "1", "\xe2\x82\xac!", ".*", "\\E", "(?i)", "\xff", "\xc3", "!\x80", "bot: ", "Bot,", "\xc3\x89", "k", "\xe2\x84\xaa"}
+	cmdPrefixes = []string{"!", ".", "$^", "\\", "(a|b)", "[x]", "*+?", "\xc3\xa9", "", replacementRune, "a" + replacementRune, "!!", "{b}", "^", "$", "\\Q", "x", " ", "\n", "|", "-", "1", "\xe2\x82\xac!", ".*", "\\E", "(?i)", "\xff", "\xc3", "!\x80", "bot: ", "Bot,", "\x01ACTION ", "\x01", "\xc3\x89", "k", "\xe2\x84\xaa"}
 	cmdNames    = []string{"ping", "p", "pong", "help", "a-b_9", name20, name21, "Ping", "PONG", "\xe2\x84\xaa", "\xc4\xb0x", "pi ng", "", "\xc3\xa9", "x", "s", "search", "-", "_", "0", "h", "ping\n", "a.b", "Help", "\xff", "pin\xc3\xa9"}
 	cmdSources  = []string{"nick", "Nick[x]", "irc.server.net", "", "sp ace", "n\xff", "a"}
-	cmdTargets  = []string{"me", "#chan", "&x", "#", "", "#a b", "+c", "!ABCDEname"}
+	cmdTargets  = []string{"me", "#chan", "&x", "#", "", "#a b", "+c", "!ABCDEname", "@#chan", "042AAAAAB", "+#chan", "nick", "a\x07"}
 )
 
 func genCmdTable(r *rand.Rand) []cmdSpec {
@@ -738,7 +738,17 @@ func genCmdText(r *rand.Rand, prefix string, keys []string) string {
 	case 6, 7:
 		p = swapCase(prefix)
 	}
-	return p + name + tail
+	return ctcpWrap(r, p+name+tail, 14)
+}
+
+// ctcpWrap: once in n times the text arrives as the body of a CTCP ACTION (/me) or of
+// another \x01-delimited message.  Such a text begins with \x01, not with the prefix: nothing
+// may run and nothing may be answered (unless the prefix itself begins with \x01).
+func ctcpWrap(r *rand.Rand, text string, n int) string {
+	if r.Intn(n) != 0 {
+		return text
+	}
+	return Pick(r, "\x01ACTION ", "\x01ACTION ", "\x01ACTION ", "\x01VERSION ", "\x01", "\x01ACTION", "\x01action ") + text + Pick(r, "\x01", "\x01", "\x01", "")
 }
 
 func cmdExecSig(e girc.Event, m *specM, nInv, nLines int) string {
@@ -829,6 +839,7 @@ func init() {
 			for _, p := range cmdPrefixes {
 				for _, t := range []string{"ping", "ping a b", "ping ", "ping  a", "ping a ", "ping\n", "ping a\n", "Ping", name20, name21, name20 + " a", name21 + " a", "help", "help ping", ""} {
 					out = append(out, Case{p, p + t}, Case{p, t}, Case{p, " " + p + t}, Case{p, p + p + t}, Case{p, swapCase(p) + t})
+					out = append(out, Case{p, "\x01ACTION " + p + t + "\x01"}, Case{p, "\x01" + p + t + "\x01"}, Case{p, "\x01ACTION " + p + t})
 				}
 			}
 			for n := 0; n <= 23; n++ {
@@ -1126,6 +1137,9 @@ func init() {
 			one("", "me", []string{"x a  b ", "x", "x  ", "y 1 2"}, x, y)
 			one("!", "me", []string{"!x same", "!x same", "!x same"}, x)
 			one("!", "me", []string{"!nope a", "x a", "!X a", "!x a\nb"}, x)
+			one("!", "#chan", []string{"\x01ACTION !x a b\x01", "!x c", "\x01ACTION !y d\x01", "\x01!x e\x01", "\x01VERSION !help x\x01"}, x, y)
+			one("!", "@#chan", []string{"!y a", "!x b", "!help y", "!y"}, x, y)
+			one("!", "042AAAAAB", []string{"!y a", "!x b", "!help", "!yy c"}, x, y)
 			return out
 		},
 		Gen: func(r *rand.Rand) Case {
@@ -1154,7 +1168,11 @@ func init() {
 					n = r.Intn(11)
 				}
 			}
-			c := Case{prefix, Pick(r, "me", "me", "#chan"), Pick(r, "0", "1"), strconv.Itoa(k)}
+			target := Pick(r, "me", "me", "#chan")
+			if r.Intn(5) == 0 {
+				target = Pick(r, cmdTargets...)
+			}
+			c := Case{prefix, target, Pick(r, "0", "1"), strconv.Itoa(k)}
 			c = append(c, texts...)
 			return append(c, encodeCmds(cs)...)
 		},
